@@ -327,8 +327,6 @@ def run_batch(ctx, binp, cases, dirty=0):
 
 
 GAP_KEY = "vec_znx_big_normalize:gap-region(C08):cnv_offset<base2k:result-bits<base2k"
-ZERO_KEY = "fft64:cnv_apply_dft:zero-limb-result-panics:cnv_offset>=full-product"
-RADIX_KEY = "operations/glwe.rs:glwe_tensor_relinearize:adds-unconverted-tensor:a_base2k!=key_base2k==res_base2k"
 
 
 def run(ctx):
@@ -386,6 +384,8 @@ def run(ctx):
                    c["off"] < c["b"], c["off"] % c["b"] == 0, so * c["bo"] < (sa + sb) * c["b"], c["m"], fft_ok, c.get("dsize"),
                    c.get("bk") == c["b"] if "bk" in c else None)
             ctx.count_case(key, nontrivial=True)
+            if c["op"] == "relin" and c["b"] != c["bk"] and c["bo"] == c["bk"]:
+                hist["relin_tensor_radix!=key_radix==res_radix"] = hist.get("relin_tensor_radix!=key_radix==res_radix", 0) + 1
             for hk in (c["op"], f"rank{c['rank']}", "fft64_in_domain" if fft_ok else "ntt120_only",
                        "offset<base2k" if c["off"] < c["b"] else "offset>=base2k",
                        "masked_a" if c["ka"] % c["b"] else "full_a"):
@@ -393,12 +393,10 @@ def run(ctx):
             hi_ = 0 if c["off"] < c["b"] else c["off"] // c["b"] - 1
             sb_eff = sa if c["op"] == "square" else (c.get("clen", 1) if c["op"].startswith("const") else sb)
             zero_dft = c["op"] in ("tensor", "tensor_add", "square", "plain", "plain_assign", "const") and sa + sb_eff - hi_ == 0
+            if zero_dft:
+                hist["zero_limb_convolution"] = hist.get("zero_limb_convolution", 0) + 1
             for i in range(4):
                 if BIG128[i] == 0 and not fft_ok:
-                    continue
-                if BIG128[i] == 0 and zero_dft and outs[i].startswith("panic:"):
-                    known.setdefault(ZERO_KEY, {"request": req_line(c), "back_end": BE_NAMES[i], "implementation": outs[i],
-                                                "ntt120": outs[1][:120], "model": model[(k, 1)][:120]})
                     continue
                 if outs[i] != model[(k, BIG128[i])]:
                     ctx.disagreements += 1
@@ -415,7 +413,7 @@ def run(ctx):
                 acc = [int(x) for x in outs[1].split(":")[1].split(",")]
                 if [((x + y + (1 << 63)) % (1 << 64)) - (1 << 63) for x, y in zip(r0, pr)] != acc:
                     broken.append(f"accumulate form does not add exactly the product on: {req_line(c)}")
-            if fft_ok and len(set(outs)) > 1 and not zero_dft:
+            if fft_ok and len(set(outs)) > 1:
                 broken.append(f"back ends disagree on: {req_line(c)}")
             if not outs[1].startswith("panic"):
                 for i in ([1] + ([0] if fft_ok and not outs[0].startswith("panic") else [])):
@@ -429,8 +427,6 @@ def run(ctx):
                         gap = c["op"] != "relin" and c["off"] < c["b"] and len(parse_vec(outs[i], c["n"])[0]) * (c["bo"] if not c["op"].endswith("_assign") else c["b"]) < c["b"]
                         if gap:
                             kf = GAP_KEY
-                        elif c["op"] == "relin" and c["bo"] == c["bk"] and c["b"] != c["bk"]:
-                            kf = RADIX_KEY
                         w = {"request": req_line(c), "back_end": BE_NAMES[i], "oracle": det,
                              "model_equals_implementation": outs[i] == model[(k, BIG128[i])],
                              "rerun": f"printf '1 {req_line(c)}\\n' | harness/target/release/pvh mul"}
